@@ -156,3 +156,21 @@ CLAIMED['C14'] = dict(
     note="Dynamic/adaptive paths bind worker i to states[i] inside the stubs (read off their generator lambdas, not proved). The same known finding as C48 is reported (the caller-run tail "
          "uses *states.begin() while scheduled chunk 0 is using it); residual discharged.",
     technique="CBMC DFCC contracts over the extracted control skeleton with a ghost ownership ledger; intwp for the index remap and initStates loop")
+
+CLAIMED['C45'] = dict(
+    category='proof',
+    text="threadId()'s extracted body is verified by CBMC for every value of the process-wide counter and the thread-local cache: an already assigned id is returned unchanged and "
+         "the counter is not touched (stability); otherwise exactly one fetch_add is performed, the id is the counter value it returned, the counter advances by one and the id is "
+         "cached; the id never equals the invalid marker while fewer than 2^64-1 ids were issued. The declarations (thread_local cache initialised to the marker, counter starting "
+         "at 0) are checked textually on every run.",
+    note="Uniqueness across threads = atomic-RMW axiom (each concurrent fetch_add returns a distinct value) + the proved discipline; thread_local semantics are the compiler's.",
+    technique="CBMC DFCC function contract with ghost RMW counter")
+
+CLAIMED['C43'] = dict(
+    category='proof',
+    text="Set-algebra sentence of the property only: for an arbitrary ghost id k (any int32_t) and arbitrary set contents, membership of k after add/remove/addRange/removeRange/clear "
+         "is exactly the mathematical result (ids < 0 or >= CPU_SETSIZE are ignored, nothing out of bounds is touched), contains() returns membership; verified by CBMC against glibc's "
+         "real CPU_SET/CPU_CLR/CPU_ISSET macros; the range loops carry loop invariants + decreases clauses (unbounded in the loop count).",
+    note="NOT decided here: CPU-list parsing (std::string/strtol/strchr) and cache-topology grouping (std::vector of structs) - outside the extractable subset, said so in the evidence. "
+         "count() is proved only to forward glibc's __sched_cpucount (axiom stub). Linux variant only.",
+    technique="CBMC DFCC function + loop contracts over the extracted methods and glibc macros, ghost membership index")
